@@ -43,7 +43,12 @@ def generate(rng, tier):
     if not has_started:
         ops.append(["start"])
     ops.append(["resume"])
-    return {"ops": ops, "wait_p": rng.choice([0.0, 0.3, 0.7, 1.0])}
+    case = {"ops": ops, "wait_p": rng.choice([0.0, 0.3, 0.7, 1.0])}
+    posts = [op[1] for op in ops if op[0] == "post"]
+    # transport fault: sending one chosen post raises once (an unreachable destination in
+    # 'fail' mode), possibly in the middle of the flush done by resume
+    case["fail_post"] = rng.choice(posts) if posts and rng.random() < 0.25 else None
+    return case
 
 
 def shrink_candidates(case):
@@ -85,6 +90,28 @@ def execute(case, tape):
             b.on_agent("B", lambda: (b.agents["B"].add_computation(T), T.start()))
             b.drain()
 
+            class InjectedSendFailure(Exception):
+                pass
+            fault = {"fired": None}
+            if case.get("fail_post") is not None:
+                real_sender = R._msg_sender
+
+                def faulty_sender(src, dst, msg, prio=None, on_error=None):
+                    if fault["fired"] is None and getattr(msg, "content", None) == case["fail_post"]:
+                        fault["fired"] = sim.next_event_no()
+                        sim.stats["fault_send_failures"] = sim.stats.get("fault_send_failures", 0) + 1
+                        raise InjectedSendFailure(f"cannot send post {msg.content}")
+                    return real_sender(src, dst, msg, prio, on_error)
+                R._msg_sender = faulty_sender
+
+            def guarded(fn):
+                def run_it():
+                    try:
+                        fn()
+                    except InjectedSendFailure:
+                        log.append(("send_failed", sim.next_event_no()))
+                return run_it
+
             def do(op):
                 kind = op[0]
                 if kind == "recv":
@@ -96,18 +123,23 @@ def execute(case, tape):
                     b.on_agent("A", lambda: (log.append(("op", "pause", sim.next_event_no())),
                                              R.pause(True)))
                 elif kind == "resume":
-                    b.on_agent("A", lambda: (log.append(("op", "resume", sim.next_event_no())),
-                                             R.pause(False)))
+                    b.on_agent("A", guarded(lambda: (log.append(("op", "resume", sim.next_event_no())),
+                                                     R.pause(False))))
                 elif kind == "post":
                     serial = op[1]
-                    b.on_agent("A", lambda: (log.append(("op", "post", sim.next_event_no(), serial,
-                                                         R.is_paused)),
-                                             R.post_msg("T", b.Message("x", serial))))
+                    b.on_agent("A", guarded(lambda: (
+                        log.append(("op", "post", sim.next_event_no(), serial, R.is_paused)),
+                        R.post_msg("T", b.Message("x", serial)))))
             for op in case["ops"]:
                 do(op)
                 if tape.coin(case["wait_p"]):
                     b.drain()
+            b.drain()
+            if fault["fired"] is not None:
+                # what the failed flush left in the buffers goes out with the next resume
+                do(["resume"])
             result["drained"] = b.drain()
+            result["fault_fired"] = fault["fired"]
             b.shutdown()
         except orch.threadsim.SimAbort as e:
             result["abort"] = str(e)
@@ -151,8 +183,11 @@ def execute(case, tape):
             viol = ("handled_exactly_once", f"reception {key} was handled {handled[key]} times "
                     f"(handle order {handle_order})")
             break
-    if viol is None:
-        idx = [first_recv[k] for k in handle_order]
+    faulted = result.get("fault_fired") is not None
+    if faulted:
+        feats["send_failure"] = True
+    if viol is None and not faulted:       # a failed flush leaves receptions buffered: the order
+        idx = [first_recv[k] for k in handle_order]     # around it is not specified
         if idx != sorted(idx):
             viol = ("handled_in_reception_order", f"R handled {handle_order} but first received "
                     f"them in order {sorted(handle_order, key=lambda k: first_recv[k])}")
@@ -162,7 +197,14 @@ def execute(case, tape):
     arrivals = [(ev[3], ev[4]) for ev in log if ev[0] == "handle" and ev[1] == "T"]
     arr_order = [a for a, _ in arrivals]
     held = sum(1 for ev in posts if ev[4])
-    if viol is None:
+    if viol is None and faulted:
+        # an injected send failure: the failed post must not arrive, every other post exactly
+        # once; the order around a failed flush is not specified and not checked
+        want = sorted(x for x in post_order if x != case["fail_post"])
+        if sorted(arr_order) != want:
+            viol = ("posts_sent_exactly_once", f"R posted {post_order} (sending "
+                    f"{case['fail_post']} failed once), T received {arr_order}")
+    elif viol is None:
         if sorted(arr_order) != sorted(post_order):
             viol = ("posts_sent_exactly_once", f"R posted {post_order}, T received {arr_order}")
         elif arr_order != post_order:
